@@ -550,7 +550,7 @@ fn strip_journal(s: &str) -> String {
     match (s.find(" j=["), s.find(']')) { (Some(a), Some(_)) => { let end = s[a..].find(']').map(|e| a + e + 1).unwrap_or(s.len()); format!("{}{}", &s[..a], &s[end..]) } _ => s.to_string() }
 }
 
-struct Mirrored { c: Ctx, last_proof: Vec<Option<String>> }
+struct Mirrored { c: Ctx, last_proof: Vec<Option<String>>, raw: bool }
 impl Mirrored {
     /// run `line` (about W / R) on the primary (recorded, compared with the model) and on every mirror
     fn run(&mut self, line: String) -> String {
@@ -558,7 +558,7 @@ impl Mirrored {
         if line.starts_with("prove W") { /* the primary's proof text is taken by the caller */ }
         for (mi, (m, _)) in MIRRORS.iter().enumerate() {
             let mut l = format!("{line} ").replace(" W ", &format!(" {m} ")).replace(" R ", &format!(" R{m} ")).trim_end().to_string();
-            if l.starts_with("applyp ") {
+            if l.starts_with("applyp ") && !self.raw {
                 match &self.last_proof[mi] { Some(t) => { l = format!("applyp R{m} {t}"); } None => continue }
             }
             let honest = self.c.sim.proof_honest; let saved = self.c.sim.proof.clone(); let saved_len = self.c.sim.proof_writer_len;
@@ -587,7 +587,7 @@ impl Mirrored {
 pub fn config_histories(seed: u64, n: usize, max_ops: u64) -> RunOut {
     let mut r = Rng::new(seed);
     let c = Ctx { sim: Sim::new(), out: RunOut { ops: vec![], outs: vec![], stats: BTreeMap::new(), failures: vec![], samples: vec![] }, seen: HashSet::new(), hist_digest: String::new() };
-    let mut m = Mirrored { c, last_proof: vec![None; MIRRORS.len()] };
+    let mut m = Mirrored { c, last_proof: vec![None; MIRRORS.len()], raw: false };
     for _ in 0..n {
         m.c.run(format!("new W {SEED_HEX}"));
         for (name, opt) in MIRRORS.iter() { m.c.sim.exec(&format!("new {name} {SEED_HEX} {opt}")); m.c.sim.history.pop(); }
@@ -639,13 +639,37 @@ pub fn config_histories(seed: u64, n: usize, max_ops: u64) -> RunOut {
                 if blk == "-" && hsh == "-" && sk == "-" && ups == "-" { continue; }
                 let o = m.run(format!("prove W {blk} {hsh} {sk} {ups}"));
                 if o.starts_with("ok fork") {
-                    let t = crate::sim::proof_full_txt(m.c.sim.proof.as_ref().unwrap());
+                    let honest = m.c.sim.proof.clone().unwrap();
+                    let t = crate::sim::proof_full_txt(&honest);
+                    // sometimes altered variants first: every configuration must give the same verdict on them
+                    let mut changed = false;
+                    if r.chance(1, 3) {
+                        for _ in 0..r.range(1, 3) {
+                            if let Some((q, kind)) = alter(&honest, None, &mut r) {
+                                if q == honest { continue; }
+                                *m.c.out.stats.entry(format!("alt_{kind}")).or_insert(0) += 1;
+                                m.c.sim.proof_honest = false;
+                                m.raw = true;
+                                let o = m.run(format!("applyp R {}", crate::sim::proof_full_txt(&q)));
+                                m.raw = false;
+                                if o.starts_with("ok true") { changed = true; }
+                            }
+                        }
+                    }
+                    m.c.sim.proof = Some(honest); m.c.sim.proof_honest = !changed;
                     m.run(format!("applyp R {t}"));
                     if r.chance(1, 3) { m.run("probe R".into()); }
                     if r.chance(1, 6) { m.run("reopen R".into()); }
                 }
             }
             if r.chance(1, 8) { m.run("dump W".into()); }
+            if r.chance(1, 30) {
+                // the writer starts over on the same storage (overwrite); its replicas are replaced by fresh ones
+                m.run("recreate W".into()); m.run("probe W".into()); m.run("dump W".into());
+                m.c.run("newr R W".into());
+                for (name, opt) in MIRRORS.iter() { m.c.sim.exec(&format!("newr R{name} {name} {opt}")); m.c.sim.history.pop(); }
+                m.last_proof = vec![None; MIRRORS.len()];
+            }
         }
         m.run("probe W".into()); m.run("dump W".into()); m.run("dump R".into());
         m.run("reopen W".into()); m.run("probe W".into()); m.run("probe R".into());
